@@ -167,9 +167,15 @@ int run_case(Reader& r, bool& nontrivial, std::string& desc) {
                 else {
                     uint8_t b = r.u8();
                     size_t pos = src.empty() ? 0 : (b & 15u) % src.size();
-                    if (kind == 3)                                             // start inside a repeated letter: "aab" out of "aaab"
-                        for (size_t q = 0; q < src.size(); q++) { size_t c = (pos + q) % src.size(); if (c >= 1 && src[c - 1] == src[c]) { pos = c; break; } }
-                    f.text = src.substr(pos, 1 + ((b >> 4) % 5u));
+                    size_t len = 1 + ((b >> 4) % 5u);
+                    if (kind == 3) {                                           // an occurrence that follows an overlapping false start: "aab" out of "aaab"
+                        bool found = false;
+                        for (size_t q = 0; q < src.size() && !found; q++) for (size_t l = 2; l <= 5 && !found; l++) {
+                            size_t c = (pos + q) % src.size();
+                            if (c + l <= src.size() && needs_backtracking(src, src.substr(c, l))) { pos = c; len = l; found = true; }
+                        }
+                    }
+                    f.text = src.substr(pos, len);
                 }
             }
             filters[which].push_back(f);
